@@ -1,5 +1,6 @@
 ------------------------------ MODULE PipelineTrace ------------------------------
-(* Acceptor for C01: every input x configuration is driven through the staged API  *)
+(* Acceptor for C01 (and the after-execution half of C03: "halt" records).          *)
+(* C01: every input x configuration is driven through the staged API                *)
 (* and through the one-call entry point; the recorded stage outcomes must be a      *)
 (* behaviour of Pipeline.tla ending in a terminal state, and both ways of running   *)
 (* must agree on the result class.                                                  *)
@@ -21,8 +22,18 @@ Replay(calls, i, d, out) ==
          ELSE IF c.res = "err" /\ c.name # "prepare_unifier" THEN Replay(calls, i + 1, d, "error")
          ELSE [done |-> d, outcome |-> out, ok |-> FALSE]      \* a panic, or an outcome the typestate does not have
 
+(* C03: the whole analysis halts.  A "halt" record is one analyze() under a watchdog that never asks to stop  *)
+(* but counts polls: the run must have reached a terminal state of the typestate before the poll budget ran   *)
+(* out (a stop forced by the exhausted budget means lifting, inference or unification was still looping).     *)
+(* A panic does halt; it is C01's business, not C03's.                                                        *)
+HaltVerdict(e) ==
+    IF e.exhausted \/ e.polls >= e.budget THEN {"Inv_C03_AnalysisHalts/budget"}
+    ELSE IF e.outcome \in {"layout", "error", "panic"} THEN {}
+    ELSE {"Inv_C03_AnalysisHalts"}
+
 Verdict(e) ==
     IF e.ev = "abort" THEN {"Inv_C01_Total/abort"}
+    ELSE IF e.ev = "halt" THEN HaltVerdict(e)
     ELSE IF e.ev # "run" THEN {}
     ELSE LET r == Replay(e.calls, 1, 0, "running") IN
          \* C01: every call returned a value, and the run ended in a terminal state
